@@ -15,6 +15,7 @@
 #include "virtual.h"
 #include "rng.h"
 #include "paula.h"
+#include "far_extras.h"
 #include "c06_ctxfields.h"
 
 #define C06_MAXENT 256
@@ -231,8 +232,11 @@ static int c06_pointee(struct context_data *ctx, const char *ctor, void *ptr, ui
 		h = c06_instruments(h, ctx->smix.xxi, ctx->smix.ins);
 	} else if (!strcmp(ctor, "smix_xxs")) {
 		h = c06_samples(h, ctx->smix.xxs, ctx->smix.smp);
+	} else if (!strcmp(ctor, "m_extra") && HAS_FAR_MODULE_EXTRAS(*m)) {
+		/* FAR module-wide tempo / vibrato state (changed by effects while playing) */
+		h = fnv1a(h, ptr, sizeof(struct far_module_extras));
 	} else {
-		/* m_extra (format specific) and anything new: opaque */
+		/* m_extra of other formats (tables loaded from the file) and anything new: opaque */
 		return 0;
 	}
 	*dig = h;
